@@ -262,6 +262,67 @@ def r6_dropped(ctx):
                   f"result filter is {d}; documented: drop only exhausted / zero-weight ballots")
 
 
+def r7_surplus_factor(ctx):
+    """The fractional rule's factor (same obligations as C02.R4, restricted to fractional_transfer)."""
+    from rules import c02
+    sub = type(ctx)(ctx.prog, ctx.prop, ctx.tier)
+    c02.r4_surplus_factor(sub)
+    n = 0
+    for o in sub.obs:
+        if o.function.endswith("fractional_transfer"):
+            o.rule = "C03.R7"
+            ctx.obs.append(o)
+            n += 1
+    if n == 0:
+        ctx.vanished("fractional_transfer weight definitions")
+
+
+def _cursor_sites(prog):
+    """Slice stores L[i : i + len(X)] = X (a cursor filling a pre-sized list)."""
+    out = []
+    for f in prog.iter_functions(("src/votekit/elections/", "src/votekit/utils.py")):
+        if isinstance(f.node, ast.Lambda):
+            continue
+        for n in astx.walk_own(f.node):
+            if isinstance(n, ast.Assign) and isinstance(n.targets[0], ast.Subscript) and isinstance(n.targets[0].slice, ast.Slice) and isinstance(n.value, ast.Name):
+                sl = n.targets[0].slice
+                if isinstance(sl.lower, ast.Name) and sl.upper is not None and sl.step is None:
+                    out.append((f, n))
+    return out
+
+
+def r8_cursor_discipline(ctx):
+    prog = ctx.prog
+    sites = _cursor_sites(prog)
+    for f, n in sites:
+        pm = astx.parents(f.node)
+        cur = n.targets[0].slice.lower.id
+        x = n.value.id
+        N = Normalizer(f.node, inline=False, int_atoms=lambda a: True)
+        width_ok = False
+        try:
+            width_ok = (N.rat(n.targets[0].slice.upper) - N.rat(n.targets[0].slice.lower)).equals(spec_rat(f"len({x})", int_atoms=lambda a: True))
+        except NotClosedForm:
+            pass
+        blk = pm[n]
+        seq = None
+        for fld in ("body", "orelse", "finalbody"):
+            if n in getattr(blk, fld, []):
+                seq = getattr(blk, fld)
+        nxt = seq[seq.index(n) + 1] if seq is not None and seq.index(n) + 1 < len(seq) else None
+        adv_ok = isinstance(nxt, ast.AugAssign) and astx.is_name(nxt.target, cur) and isinstance(nxt.op, ast.Add) and astx.u(nxt.value) == f"len({x})"
+        # the written value is (re)bound in the same block before the store, so each store writes fresh material
+        fresh = any(isinstance(a_, ast.Assign) and x in astx.assigned_names(a_.targets[0]) for s_ in seq[: seq.index(n)] for a_ in ast.walk(s_)) if seq is not None else False
+        ctx.check(width_ok and adv_ok and fresh, f, n, f"{f.short}: cursor `{cur}` fills [{cur} : {cur}+len({x})] and then advances by len({x}) in the same block", astx.u(n)[:80],
+                  f"`{astx.u(n)[:70]}`: slice width = len({x}): {width_ok}; next statement advances the cursor by len({x}): {adv_ok}; value bound in the same block: {fresh}. "
+                  "Otherwise later writes overwrite earlier ballots (votes vanish) or leave gaps")
+        # the cursor starts at 0 before the first store
+        inits = [dv for st, dv in astx.defs_of(f.node, cur) if dv is not None]
+        ctx.check(len(inits) >= 1 and all(astx.is_const(d, 0) for d in inits), f, n, f"{f.short}: cursor `{cur}` starts at 0", "", f"cursor `{cur}` is initialised with something other than 0")
+    if len(sites) < 5:
+        ctx.violated(None, None, "cursor-filled lists", f"only {len(sites)} cursor stores found (STV steps, random_transfer, tiebroken_ranking expected)")
+
+
 RULES = [
     ("C03.R1", r1_winner_filtered, 5, "the winner is filtered out of every position; emptied positions dropped; siblings agree"),
     ("C03.R2", r2_order, 3, "the rebuilt ranking keeps the source order (order-preserving pipeline)"),
@@ -269,6 +330,8 @@ RULES = [
     ("C03.R4", r4_random_rule, 5, "random rule: unit expansion, random.sample of floor(tally)-threshold, integrality TypeError"),
     ("C03.R5", r5_weight_provenance, 9, "every Ballot weight on the STV path is copy / scaled copy / unit / zero / accumulator"),
     ("C03.R6", r6_dropped, 2, "ballots leave the result only through `ranking and weight > 0`"),
+    ("C03.R7", r7_surplus_factor, 3, "fractional rule: weight*(tally-threshold)/tally on winner-first ballots, full weight otherwise (formula normal form)"),
+    ("C03.R8", r8_cursor_discipline, 10, "every cursor-filled ballot list advances its cursor by exactly what was written, in the same block"),
 ]
 
 TR = "src/votekit/elections/transfers.py"
@@ -287,6 +350,13 @@ FAULTS = [
     ("condense adds one", [(PP, "            weight_accumulator[weightless_ballot] += ballot.weight", "            weight_accumulator[weightless_ballot] += ballot.weight + 1")], "C03.R5"),
     ("result keeps zero weights", [(TR, "ballots=tuple([b for b in transfered_ballots if b.ranking and b.weight > 0])", "ballots=tuple([b for b in transfered_ballots if b.ranking and b.weight >= 0])")], "C03.R6"),
     ("transfer weight plus constant", [(TR, "transfered_weight = ballot.weight * Fraction(transfer_value)", "transfered_weight = ballot.weight * Fraction(transfer_value) + 1")], None),
+]
+STVP = "src/votekit/elections/election_types/ranking/stv.py"
+FAULTS += [
+    ("factor floors the tally", [(TR, "transfer_value = (fpv - threshold) / Fraction(fpv)", "transfer_value = Fraction(int(fpv) - threshold, int(fpv))")], "C03.R7"),
+    ("cursor advance dedented", [(STVP, "                new_ballots[\n                    ballot_index : (ballot_index + len(transfer_ballots))\n                ] = transfer_ballots\n                ballot_index += len(transfer_ballots)\n\n        for candidate in set(",
+                                  "                new_ballots[\n                    ballot_index : (ballot_index + len(transfer_ballots))\n                ] = transfer_ballots\n            ballot_index += len(transfer_ballots)\n\n        for candidate in set(")], "C03.R8"),
+    ("cursor advance by one", [(TR, "                winner_index += len(new_ballots)", "                winner_index += 1")], "C03.R8"),
 ]
 BENIGN = [
     ("factor via local fraction", [(TR, "transfer_value = (fpv - threshold) / Fraction(fpv)", "fpv = Fraction(fpv)\n    transfer_value = (fpv - threshold) / fpv")]),
